@@ -4,9 +4,10 @@
 import glob, json, os, re, shutil, subprocess, sys
 V = os.path.dirname(os.path.dirname(os.path.abspath(__file__)))
 props = {json.loads(l)["id"]: json.loads(l) for l in open(os.path.join(V, "properties.jsonl"))}
+RND = os.environ.get("SEED_ROUND", "2")
 head = subprocess.run(["git", "-C", "/repo", "log", "--format=%h", "-1"], capture_output=True, text=True).stdout.strip()
 for pid in sys.argv[1:]:
-    src = "/tmp/mut/out/%s" % pid
+    src = "%s/%s" % (os.environ.get("SEED_SRC", "/tmp/mut/out"), pid)
     d = os.path.join(V, "seeded", pid)
     os.makedirs(d, exist_ok=True)
     mp = os.path.join(d, "meta.json")
@@ -31,14 +32,14 @@ for pid in sys.argv[1:]:
         shutil.copy(demo, os.path.join(d, "demo%d.sh" % nxt))
         notes = open(os.path.join(src, "notes.md")).read() if os.path.exists(os.path.join(src, "notes.md")) else ""
         with open(os.path.join(d, "notes.md"), "a") as f:
-            f.write("\n\n---\n# Round 2 (base %s): %s = the sub-agent's %s\n\n%s\n" % (head, name, os.path.basename(patch), notes if k in ("", None) or not os.path.exists(os.path.join(d, "notes.round2.done")) else "(see above)"))
-        open(os.path.join(d, "notes.round2.done"), "w").close()
-        meta["changes"].append(dict(patch=name, demo="demo%d.sh" % nxt, breaks=pid, origin="fresh sub-agent, round 2, base %s (given only the property text and a scratch worktree)" % head,
-            needs="see notes.md (Round 2, %s)" % os.path.basename(patch),
+            f.write("\n\n---\n# Round %s (base %s): %s = the sub-agent's %s\n\n%s\n" % (RND, head, name, os.path.basename(patch), notes if k in ("", None) or not os.path.exists(os.path.join(d, "notes.round%s.done" % RND)) else "(see above)"))
+        open(os.path.join(d, "notes.round%s.done" % RND), "w").close()
+        meta["changes"].append(dict(patch=name, demo="demo%d.sh" % nxt, breaks=pid, origin="fresh sub-agent, round %s, base %s (given only the property text and a scratch worktree)" % (RND, head),
+            needs="see notes.md (Round %s, %s)" % (RND, os.path.basename(patch)),
             confirmed=dict(how="tools/confirm_seed.sh in a scratch worktree of /repo HEAD: git apply; cargo test --workspace --no-fail-fast --offline; demo with patch; demo without patch",
                            tests_passed_failed=c["tests_passed_failed"], demo_rc_with_patch=c["demo_rc_with_patch"], demo_rc_without_patch=c["demo_rc_without_patch"]),
             detected_by=None))
         nxt += 1
-    for f in glob.glob(os.path.join(d, "notes.round2.done")):
+    for f in glob.glob(os.path.join(d, "notes.round%s.done" % RND)):
         os.unlink(f)
     json.dump(meta, open(mp, "w"), indent=1)
